@@ -185,7 +185,7 @@ func (c *VC) ghostBuiltin(st *State, name string, call *ast.CallExpr) []*Term {
 			return []*Term{mkForall([]*Term{bv}, mkImplies(rng, body))}
 		}
 		return []*Term{mkExists([]*Term{bv}, mkAnd(rng, body))}
-	case "forallIn", "existsIn":
+	case "forallIn", "existsIn", "forallStr":
 		// quantification over the elements s[lo:hi], bound by the absolute position in the backing
 		// array so that ANY read of that array instantiates the fact (robust e-matching)
 		sv := c.eval(st, call.Args[0])
@@ -204,11 +204,16 @@ func (c *VC) ghostBuiltin(st *State, name string, call *ast.CallExpr) []*Term {
 		sig := tv.Type.(*types.Signature)
 		pk, pe := sig.Params().At(0), sig.Params().At(1)
 		st0 := c.typeOf(call.Args[0])
-		elemT := st0.Underlying().(*types.Slice).Elem()
-		_, h := c.sliceHeap(st, c.sortOf(elemT))
-		row := c.sel(h, mkField(sv, "sl_base"))
+		var row, off *Term
+		if sl, isSlice := st0.Underlying().(*types.Slice); isSlice {
+			_, h := c.sliceHeap(st, c.sortOf(sl.Elem()))
+			row = c.sel(h, mkField(sv, "sl_base"))
+			off = mkField(sv, "sl_off")
+		} else {
+			row = mkField(sv, "st_arr")
+			off = mkField(sv, "st_off")
+		}
 		j := c.boundVar("j", c.idxSort())
-		off := mkField(sv, "sl_off")
 		if c.mode == ModeInt {
 			c.varBounds[j.Op] = interval{bigInt(0), new(big.Int).Mul(pow2(maxLenBits), bigInt(2))}
 		}
@@ -224,7 +229,7 @@ func (c *VC) ghostBuiltin(st *State, name string, call *ast.CallExpr) []*Term {
 		c.noName = saveNN
 		c.facts = c.facts[:nf]
 		rng := mkAnd(c.cmp(token.LEQ, c.binop(token.ADD, off, lo, it), j, it), c.cmp(token.LSS, j, c.binop(token.ADD, off, hi, it), it))
-		if name == "forallIn" {
+		if name == "forallIn" || name == "forallStr" {
 			return []*Term{mkForall([]*Term{j}, mkImplies(rng, body), mkSelect(row, j))}
 		}
 		return []*Term{mkExists([]*Term{j}, mkAnd(rng, body))}
@@ -443,7 +448,7 @@ func (c *VC) callByContract(st *State, fi *FuncInfo, args []*Term, call *ast.Cal
 						hs := map[string]*Sort{}
 						c.leafHeaps(m.typ, hs, 0)
 						if srt, ok := hs[hn]; ok {
-							_, h0 = c.ptrHeap(st, srt)
+							h0 = c.heapOr(st, hn, arraySort(sortInt, srt))
 						}
 					}
 				}
@@ -487,6 +492,9 @@ func (c *VC) callByContract(st *State, fi *FuncInfo, args []*Term, call *ast.Cal
 // definitions only.
 func (c *VC) callLemma(st *State, L *FuncInfo, args []*Term, call *ast.CallExpr) []*Term {
 	c.callees[L.Name] = true
+	if len(L.Dir.Props) == 0 {
+		c.assumptions["UNVERIFIED lemma used (no props tag, never proved): "+L.Name] = true
+	}
 	ps := paramObjs(L)
 	pre := st.clone()
 	for i, p := range ps {
@@ -714,9 +722,9 @@ func (c *VC) checkCalleeMods(st *State, mods []modSpec, pos token.Pos, text stri
 		case "map":
 			c.checkWrite(st, "HMd_"+sanitize(m.elemS.Name), m.v, nil, nil, pos, text)
 		case "ptr":
-			c.checkWrite(st, c.ptrHeapName(m.elemS), m.v, nil, nil, pos, text)
+			c.checkWrite(st, "HP_any", m.v, nil, nil, pos, text)
 			if sz := c.sizeof(m.typ); sz > 1 {
-				c.checkWrite(st, c.ptrHeapName(m.elemS), addrAdd(m.v, sz-1), nil, nil, pos, text)
+				c.checkWrite(st, "HP_any", addrAdd(m.v, sz-1), nil, nil, pos, text)
 			}
 		case "tail", "elems":
 			off, ln, cp := mkField(m.v, "sl_off"), mkField(m.v, "sl_len"), mkField(m.v, "sl_cap")
